@@ -42,7 +42,7 @@ REQUIRED_CELLS = {'quick': ['op:write', 'op:total', 'op:T', 'op:P', 'op:phase', 
                   'thorough': []}
 
 RT = 1e-11
-TAGS = ('F1', 'F2', 'F3', 'F4', 'F5', 'F6')
+TAGS = ('F1', 'F2', 'F3', 'F4', 'F5', 'F6', 'F7')
 CANON = {   # canonical signature of each known-defect region (used to ask the runner whether it is still listed)
     'F1': 'C11|view.vol|kind=S,trig=phase-same-TP|mismatch',
     'F2': 'C11|view.mass|kind=M,trig=expand-cached|mismatch',
@@ -159,6 +159,9 @@ class Run:
             if ent is None or not self.same_tp(ent, sm.tc):
                 e[i] = (sm.tc.T, sm.tc.P, f)
 
+    def cache_is_shared(self, sm):
+        return any(o.ix is not sm.ix and o.ix.cache is sm.ix.cache for n, r, o in self.live)
+
     def cache_conflict(self, name, sm, view):
         """another live stream uses the same _data_cache dict but other data / TC / phase container (F3)"""
         for n, _, o in self.live:
@@ -184,10 +187,12 @@ class Run:
             d = sm.ix.cache.dirty
             if (base == 'mass' and 'expand-mass' in d) or (base == 'vol' and ('expand-vol', id(sm.tc)) in d):
                 t.append('expand-cached')
-        if self.cache_conflict(name, sm, 'mass') or (base == 'vol' and self.cache_conflict(name, sm, 'vol')):
+        if sm.ix.cache.diverged or self.cache_conflict(name, sm, 'mass') or (base == 'vol' and self.cache_conflict(name, sm, 'vol')):
             t.append('cache-shared')
         if view == 'F_vol' and self.proxied(name):
             t.append('proxy-propcache')
+        if getattr(sm.ix.data, 'broken', False):
+            t.append('expand-shared-data')
         return '+'.join(t) if t else 'none'
 
     # ------------------------------------------------------------- comparisons
@@ -594,14 +599,19 @@ class Run:
                 ctx.cell('link:class-mismatch-rejected')
                 return
             ctx.fail(f'op.link|{region}|accepted', 'Stream linked with MultiStream without the documented RuntimeError')
+        full = TP and flow and (phase or sm.kind == 'M')
+        shared = self.cache_is_shared(sm)
+        if shared and not full and 'F3' in self.avoid:
+            ctx.cell('avoided:partial-link-with-shared-data-cache'); return self.op_T(step)
         ctx.call('op.link', real.link_with, oreal, flow, phase, TP, region=region)
         ctx.cell('op:link')
-        full = TP and flow and (phase or sm.kind == 'M')
         ctx.cell('link:full' if full else 'link:partial')
         if full:
             sm.ix.cache = om.ix.cache
         else:
             sm.ix.cache.clear()
+            if shared:
+                sm.ix.cache.diverged = True      # cleared in place: the dict stays shared with the earlier link partner
         if TP:
             if sm.tc is not om.tc:
                 sm.subs = {q: 'stale-tc' for q in sm.subs}
@@ -616,7 +626,7 @@ class Run:
     def op_unlink(self, step):
         ch, ctx = self.ch, self.ctx
         name = self.pick('target'); real, sm = self.get(name)
-        shared = any(o.ix is not sm.ix and o.ix.cache is sm.ix.cache for n, r, o in self.live)
+        shared = self.cache_is_shared(sm)
         if shared and 'F3' in self.avoid:
             ctx.cell('avoided:unlink-with-shared-data-cache')
             return self.op_T(step)
@@ -625,6 +635,8 @@ class Run:
         if sm.kind == 'S':
             sm.ix.ph = M.PhCell(sm.ix.ph.label)
         sm.ix.cache.clear()
+        if shared:
+            sm.ix.cache.diverged = True          # cleared in place: the dict stays shared with the link partner
         sm.ix.data = sm.ix.data.copy()
         sm.tc = sm.tc.copy()
         self.stale_subs(sm.ix)
@@ -670,6 +682,9 @@ class Run:
                 # Stream.copy_like first converts the *current* contents to the source's phases (C13's subject)
                 ctx.cell('avoided:copy_like-current-label-not-in-source-phases(C13)'); return self.op_T(step)
         expand = bool(new_labels)
+        sharers = [o for n, r, o in self.live if o.ix is not sm.ix and o.ix.data is sm.ix.data]
+        if expand and sharers and 'F7' in self.avoid:
+            ctx.cell('avoided:copy_like-expands-phases-of-shared-flow-data'); return self.op_T(step)
         if expand and 'F2' in self.avoid and (sm.ix.cache.mass or sm.ix.cache.vol):
             ctx.cell('avoided:copy_like-expands-phases-with-cached-views'); return self.op_T(step)
         ctx.call('op.copy_like', real.copy_like, oreal, region=region + f',expand={int(expand)}')
@@ -685,6 +700,17 @@ class Run:
             sm.ix.phases = M.sort_phases(sm.labels() + new_labels)
             sm.ix.data.rows = [old.get(q, np.zeros(sm.pk.n)) for q in sm.ix.phases]
             ctx.cell('copy_like:expand')
+            if sharers:
+                # the rows of the shared array changed under indexers that keep their old phase tuple (F7)
+                sm.ix.data.broken = True
+                for n, r, o in list(self.live):
+                    if o in sharers:
+                        nrows = len(r.imol.data.rows)
+                        if nrows != len(r.phases):
+                            ctx.fail('view.mol|kind=M,trig=expand-shared-data|shape',
+                                     f'{n}: {nrows} rows of molar data for phases {r.phases} after {name}.copy_like expanded the shared flow data in place')
+                        self.live.remove((n, r, o)); ctx.cell('aux-dropped')     # consistent again: semantics unspecified, stop tracking
+                sm.ix.data.broken = False
         self.resync(name, real, sm)
         self.mark(sm, 'copy_like' + ('+expand' if expand else ''))
 
@@ -837,10 +863,12 @@ STRUCT = {'T', 'P', 'phase', 'phases', 'link', 'unlink', 'copy_like', 'reset_the
 def prop_history(ch, ctx):
     M.reset_case()
     run = Run(ch, ctx)
-    mode = ch.int('mode', 0, 10)
+    mode = ch.int('mode', 0, 11)
     known = {t for t in TAGS if t in LISTED}
-    enter = {5: 'F1', 6: 'F2', 7: 'F3', 8: 'F4', 9: 'F5', 10: 'F6'}.get(mode)
+    enter = {5: 'F1', 6: 'F2', 7: 'F3', 8: 'F4', 9: 'F5', 10: 'F6', 11: 'F7'}.get(mode)
     run.avoid = {t for t in known if t != enter}
+    if enter == 'F7':
+        run.avoid.discard('F2')      # F7 needs an in-place phase expansion, which F2's region contains
     pkgs = list(chem.PACKAGES)
     spec_a = vs.draw_spec(ch, 'a', pkgs, T=M.T_RANGE, P=M.P_RANGE, min_phases=2)
     same = ch.int('b.same_pkg', 0, 3) > 0
@@ -877,5 +905,5 @@ def prop_history(ch, ctx):
 
 
 PROPS = {
-    'history': (prop_history, 2400, 100000),
+    'history': (prop_history, 6000, 100000),
 }
